@@ -772,6 +772,18 @@ Proof.
     + apply addr_free_alloc; [apply addr_free_alloc|]; assumption.
     + intros x Hx. cbn in Hx. destruct Hx as [<- | []]. rewrite get_alloc, Nat.eqb_refl. reflexivity.
     + apply good_fresh_plain. exact I.
+  - (* ONewFail *) exact H.
+  - (* OAllocNewFail *)
+    change gen_newp_fail_decref with true. cbv iota.
+    destruct (addr_free s a1 && addr_free s a2 && negb (a1 =? a2)) eqn:F; [|exact H].
+    rewrite !andb_true_iff in F. destruct F as [[F1 F2] N]. apply neqb in N.
+    assert (H1 : Inv (alloc s (fresh KRaw a1 0 false None))).
+    { apply alloc_inv; auto; try (intros; discriminate); try (cbn; intros ? []).
+      apply good_fresh_plain. exact I. }
+    apply collect_inv. apply alloc_inv; auto; try (intros; discriminate).
+    + apply addr_free_alloc; assumption.
+    + intros x Hx. destruct has_free; cbn in Hx; destruct Hx as [<- | []]; rewrite get_alloc, Nat.eqb_refl; reflexivity.
+    + apply good_fresh_gcp.
   - (* OAlias *)
     destruct (usable s p) eqn:U; [|exact H]. destruct (usable_spec s p U) as (L & A & R).
     destruct (k (get s p)) eqn:K; try exact H.
@@ -910,7 +922,7 @@ Proof. unfold collect. destruct (garbage s G); [apply next_fold | reflexivity]. 
 
 Lemma next_step_le s o : next s <= next (step s o).
 Proof.
-  destruct o; cbn [step]; rewrite ?no_leak, ?andb_false_r;
+  destruct o; cbn [step]; rewrite ?no_leak, ?andb_false_r; change gen_newp_fail_decref with true; cbv iota;
     repeat match goal with
            | |- context [if ?c then _ else _] => destruct c
            | |- context [match k ?x with _ => _ end] => destruct (k x)
@@ -924,7 +936,7 @@ Qed.
 
 Lemma step_mono s o i : i < next s -> mono (get s i) (get (step s o) i).
 Proof.
-  intros L. destruct o; cbn [step]; rewrite ?no_leak, ?andb_false_r;
+  intros L. destruct o; cbn [step]; rewrite ?no_leak, ?andb_false_r; change gen_newp_fail_decref with true; cbv iota;
     repeat match goal with
            | |- context [if ?c then _ else _] => destruct c
            | |- context [match k ?x with _ => _ end] => destruct (k x)
@@ -939,6 +951,8 @@ Proof.
   - eapply mono_trans; [apply mono_alloc; assumption | apply mono_alloc; rewrite next_alloc; lia].
   - eapply mono_trans; [apply mono_alloc; assumption|].
     eapply mono_trans; apply mono_alloc; rewrite ?next_alloc; lia.
+  - eapply mono_trans; [apply mono_alloc; assumption|].
+    eapply mono_trans; [apply mono_alloc; rewrite next_alloc; lia | apply mono_collect].
   - eapply mono_trans; [apply mono_release_view | apply mono_set, mono_mark_released].
   - eapply mono_trans; [apply mono_set, mono_with_k | apply mono_alloc; rewrite next_set; lia].
 Qed.
@@ -1255,3 +1269,90 @@ Qed.
    obligation [frombuf_paths_release]) *)
 Theorem failed_from_buffer_is_pure s src tag : step s (OFromBufferFail src tag) = s.
 Proof. cbn [step]. rewrite no_leak, andb_false_r. reflexivity. Qed.
+
+(* ------------------------------------------------------------------ ffi.new with a rejected
+   initializer through a custom allocator *)
+Lemma pair_garbage s a1 a2 hf : Inv s ->
+  let n := next s in
+  let s2 := alloc (alloc s (fresh KRaw a1 0 false None))
+                  (fresh (KGcp (Some n) (dtor_of hf)) a2 0 hf None) in
+  garbage s2 [S n; n] = true.
+Proof.
+  intros H n s2.
+  assert (Gn : get s2 n = fresh KRaw a1 0 false None).
+  { unfold s2. rewrite get_alloc, next_alloc. destruct (Nat.eqb_spec n (S (next s))); [unfold n in *; lia|].
+    rewrite get_alloc. fold n. rewrite Nat.eqb_refl. reflexivity. }
+  assert (Gs : get s2 (S n) = fresh (KGcp (Some n) (dtor_of hf)) a2 0 hf None).
+  { unfold s2. rewrite get_alloc, next_alloc. fold n. rewrite Nat.eqb_refl. reflexivity. }
+  assert (Go : forall j, j < n -> get s2 j = get s j).
+  { intros j L. unfold s2. rewrite get_alloc, next_alloc. fold n.
+    destruct (Nat.eqb_spec j (S n)); [lia|]. rewrite get_alloc. fold n.
+    destruct (Nat.eqb_spec j n); [lia | reflexivity]. }
+  assert (Nx : next s2 = S (S n)) by reflexivity.
+  unfold garbage. rewrite !andb_true_iff. repeat split.
+  - unfold nodupb, mem. cbn [existsb]. assert (X : Nat.eqb (S n) n = false) by (apply Nat.eqb_neq; lia).
+    rewrite X. reflexivity.
+  - cbn [forallb]. rewrite Gn, Gs, Nx. unfold fresh. cbn [alive roots].
+    assert (E1 : (S n <? S (S n)) = true) by (apply Nat.ltb_lt; lia).
+    assert (E2 : (n <? S (S n)) = true) by (apply Nat.ltb_lt; lia). rewrite E1, E2. reflexivity.
+  - apply forallb_forall. intros j Ij. unfold ids in Ij. rewrite Nx in Ij. apply in_seq in Ij.
+    destruct (Nat.eq_dec j (S n)) as [-> | N1].
+    + assert (M : mem (S n) [S n; n] = true) by (cbn; rewrite Nat.eqb_refl; reflexivity).
+      rewrite M. apply implb_true_r || (destruct (existsb _ _); reflexivity).
+    + destruct (Nat.eq_dec j n) as [-> | N2].
+      * rewrite Gn. cbn. reflexivity.
+      * assert (L : j < n) by lia. rewrite (Go j L).
+        assert (E : existsb (fun r => mem r [S n; n]) (refs_of (get s j)) = false).
+        { destruct (existsb (fun r => mem r [S n; n]) (refs_of (get s j))) eqn:X; [|reflexivity]. exfalso.
+          apply existsb_exists in X. destruct X as (r & Ir & Mr).
+          pose proof (alive_lt s r H (i_refs s H j r Ir)) as Lr. fold n in Lr.
+          cbn in Mr. destruct (Nat.eqb_spec r (S n)); [lia|]. destruct (Nat.eqb_spec r n); [lia | discriminate]. }
+        rewrite E. reflexivity.
+Qed.
+
+Theorem failed_alloc_new_frees ops a1 a2 :
+  let s := run ops in
+  addr_free s a1 = true -> addr_free s a2 = true -> a1 <> a2 ->
+  let n := next s in
+  let s' := step s (OAllocNewFail a1 a2 true) in
+  next s' = S (S n) /\
+  alive (get s' n) = false /\ alive (get s' (S n)) = false /\
+  calls (get s' (S n)) = 1 /\ had (get s' (S n)) = true /\
+  (forall j, j < n -> get s' j = get s j).
+Proof.
+  intros s F1 F2 N n s'. pose proof (run_inv ops) as H. fold s in H.
+  set (s2 := alloc (alloc s (fresh KRaw a1 0 false None))
+                   (fresh (KGcp (Some n) (dtor_of true)) a2 0 true None)).
+  assert (E : s' = fold_left dealloc [S n; n] s2).
+  { unfold s'. cbn [step]. change gen_newp_fail_decref with true. cbv iota. rewrite F1, F2.
+    destruct (Nat.eqb_spec a1 a2); [contradiction|]. cbn [andb negb]. fold n. fold s2.
+    unfold collect. unfold s2, n. rewrite (pair_garbage s a1 a2 true H). reflexivity. }
+  assert (Gs : get s2 (S n) = fresh (KGcp (Some n) (dtor_of true)) a2 0 true None).
+  { unfold s2. rewrite get_alloc, next_alloc. fold n. rewrite Nat.eqb_refl. reflexivity. }
+  assert (Gn : get s2 n = fresh KRaw a1 0 false None).
+  { unfold s2. rewrite get_alloc, next_alloc. destruct (Nat.eqb_spec n (S (next s))); [unfold n in *; lia|].
+    rewrite get_alloc. fold n. rewrite Nat.eqb_refl. reflexivity. }
+  (* the two deallocations, step by step *)
+  assert (R1 : release_view s2 (S n) = s2) by (unfold release_view; rewrite Gs; reflexivity).
+  set (s3 := dealloc s2 (S n)).
+  assert (G3 : forall j, get s3 j = if Nat.eqb j (S n) then kill (run_dtor (get s2 (S n))) else get s2 j).
+  { intros j. unfold s3, dealloc. rewrite R1, get_set. reflexivity. }
+  assert (R2 : release_view s3 n = s3).
+  { unfold release_view. rewrite G3. destruct (Nat.eqb_spec n (S n)); [lia|]. rewrite Gn. reflexivity. }
+  assert (G4 : forall j, get s' j = if Nat.eqb j n then kill (run_dtor (get s3 n))
+                                    else if Nat.eqb j (S n) then kill (run_dtor (get s2 (S n))) else get s2 j).
+  { intros j. rewrite E. cbn [fold_left]. fold s3. unfold dealloc. rewrite R2, get_set.
+    destruct (Nat.eqb_spec j n); [reflexivity | apply G3]. }
+  repeat split.
+  - rewrite E, next_fold. reflexivity.
+  - rewrite G4, Nat.eqb_refl. reflexivity.
+  - rewrite G4. destruct (Nat.eqb_spec (S n) n); [lia|]. rewrite Nat.eqb_refl. reflexivity.
+  - rewrite G4. destruct (Nat.eqb_spec (S n) n); [lia|]. rewrite Nat.eqb_refl, Gs. reflexivity.
+  - rewrite G4. destruct (Nat.eqb_spec (S n) n); [lia|]. rewrite Nat.eqb_refl, Gs. reflexivity.
+  - intros j L. rewrite G4. destruct (Nat.eqb_spec j n); [lia|]. destruct (Nat.eqb_spec j (S n)); [lia|].
+    unfold s2. rewrite get_alloc, next_alloc. fold n. destruct (Nat.eqb_spec j (S n)); [lia|].
+    rewrite get_alloc. fold n. destruct (Nat.eqb_spec j n); [lia | reflexivity].
+Qed.
+
+Theorem failed_new_is_pure s : step s ONewFail = s.
+Proof. reflexivity. Qed.
